@@ -128,6 +128,10 @@ def g_default_options(R, tier):
                     calls.append(("ast.unparse", args))
                     return Hole("unparsed", "str")
 
+                def h_compile(it, args, kw):
+                    calls.append(("compile", (args, dict(kw))))
+                    return Opaque("code-object", object)
+
                 def s_convert(it, a, s, cfg):
                     calls.append(("convert", (a, s, cfg)))
                     return out
@@ -143,7 +147,7 @@ def g_default_options(R, tier):
                     return o
                 m = Machine(stubs={"oneliner.convert:convert": s_convert, "oneliner.expr_unparse:expr_unparse": s_expr_unparse,
                                    "oneliner.config:Configs": s_configs},
-                            native_stubs={ast.parse: h_parse, symtable.symtable: h_symt, ast.unparse: h_unparse})
+                            native_stubs={ast.parse: h_parse, symtable.symtable: h_symt, ast.unparse: h_unparse, compile: h_compile})
                 cfg = None
                 if given:
                     cfg = C.Configs.__new__(C.Configs)
@@ -167,6 +171,14 @@ def g_default_options(R, tier):
                             replay=dict(kind="leak", opt="unparser", val="oneliner"))
                 R.check(f"{nm}/parses-the-source-text-it-was-given", [a[0] for k, a in v["calls"] if k in ("ast.parse", "symtable")] == [v["code"], v["code"]]
                         and len(conv) == 1 and conv[0][0] is v["tree"] and conv[0][1] is v["st"], repr(v["calls"])[:300])
+                # the compiler sees the program before anything is converted: whatever CPython refuses
+                # to compile (break outside a loop, two starred targets, repeated keyword ...) is refused
+                order = [k for k, a in v["calls"] if k in ("compile", "convert")]
+                comp = [a for k, a in v["calls"] if k == "compile"]
+                okc = order == ["compile", "convert"] and len(comp) == 1 and len(comp[0][0]) >= 3 and (comp[0][0][0] is v["tree"] or comp[0][0][0] is v["code"]) \
+                    and comp[0][0][2] == "exec"
+                R.check(f"{nm}/the-program-is-compiled-for-validation-before-it-is-converted", okc, repr(v["calls"])[:300],
+                        replay=dict(kind="srcs-raise"))
                 unpk = [k for k, a in v["calls"] if k in ("ast.unparse", "expr_unparse")]
                 want = ["expr_unparse"] if unp == "oneliner" else ["ast.unparse"]
                 R.check(f"{nm}/unparser-choice-follows-the-option", unpk == want, f"{unpk} expected {want}")
@@ -390,6 +402,16 @@ def replay_history_pairs(rp=None):
     return dict(reproduced=False, pairs=len(HISTORY_PAIRS))
 
 
+def replay_srcs_raise(rp):
+    from suites import replay_util as RU
+    for src in ("*a\n", "o.__debug__ = 1\n", "x = *a\n", "f(a=1, a=2)\n", "for *a, *b in [[1, 2]]:\n    pass\n", "def f():\n    nonlocal q\n", "def f(a, a):\n    pass\n",
+                "class A:\n    return 1\n", "def f():\n    x: int = 1\n    global x\n", "lambda: (yield)\nbreak\n"):
+        rep = RU.replay_source(src, "raises", opts=[("ast.unparse", "chain_call", "if_expr")])
+        if rep.get("reproduced"):
+            return rep
+    return dict(reproduced=False)
+
+
 def replay_src_text(rp):
     from suites import replay_util as RU
     return RU.replay_source(rp["src"], "same-globals")
@@ -434,7 +456,7 @@ def replay_history(rp=None):
     return dict(reproduced=not all(ok), same_after_option_change=ok[0], same_after_other_conversion=ok[1], program=code)
 
 
-REPLAY = {"src-text": replay_src_text, "history-pairs": replay_history_pairs, "history": replay_history, "leak": replay_leak, "illegal": replay_illegal, "hashseed": replay_hashseed, "rng": replay_rng, "frame": replay_frame}
+REPLAY = {"srcs-raise": replay_srcs_raise, "src-text": replay_src_text, "history-pairs": replay_history_pairs, "history": replay_history, "leak": replay_leak, "illegal": replay_illegal, "hashseed": replay_hashseed, "rng": replay_rng, "frame": replay_frame}
 
 from suites import thorough as _th
 GROUPS["thorough:history"] = _th.bounded_from_replay("bounded/api-history", replay_history)
